@@ -150,7 +150,7 @@ async fn c13_history(server: &Server, channel: &Channel, hist: &[u8], out: &mut 
     }
 }
 
-fn free_tcp_addr() -> SocketAddr {
+pub fn free_tcp_addr() -> SocketAddr {
     let l = std::net::TcpListener::bind("127.0.0.1:0").unwrap();
     l.local_addr().unwrap()
 }
